@@ -196,7 +196,14 @@ func run(repo, dir string, seed uint64, nprog, nvalues int, keep bool) int {
 	const ndirected = 3  // units of directedProgram (they get the witnesses)
 	const nfixed = 4     // hand-written units (more values per struct: no extra compile cost)
 	for i := 0; i < nprog; i++ {
-		p := idlgen.Generate(r, cfg)
+		pcfg := cfg
+		if i%2 == 1 {
+			pcfg.StructLiterals = false // fields get renamed below; a struct literal refers to them by name
+		}
+		p := idlgen.Generate(r, pcfg)
+		if i%2 == 1 {
+			helperLikeNames(r, p, out.Count)
+		}
 		p.Stats(out.Count)
 		units = append(units, batch.Unit{Prog: p, Recurse: true, Options: []string{"gen_deep_equal"}, Tag: fmt.Sprintf("prog%d", i)})
 		o := secondSets[(i+int(seed))%len(secondSets)]
@@ -225,9 +232,53 @@ func run(repo, dir string, seed uint64, nprog, nvalues int, keep bool) int {
 		out.Count("unit.unusable")
 		out.Sample(map[string]interface{}{"unusable_unit": u.Key, "tag": u.Tag, "options": u.Options, "exit": u.Exit, "build": firstN(u.BuildErrors, 3)})
 		fmt.Printf("UNIT %s (%s %v) not usable: exit=%d %s %v\n", u.Key, u.Tag, u.Options, u.Exit, firstLine(u.Stderr), firstN(u.BuildErrors, 3))
-		if i < nfixed {
+		if i < nfixed && !has(u.Options, "gen_deep_equal") { // gen_deep_equal units: attributed below
 			out.Fail(vl.OracleFail{Key: "directed-unit-unusable", What: "the directed program does not generate/compile", Input: map[string]interface{}{"options": u.Options, "idl": idlOf(u)},
 				Expected: "compiles", Observed: fmt.Sprint(u.Exit, firstLine(u.Stderr), firstN(u.BuildErrors, 3))})
+		}
+	}
+	// a gen_deep_equal unit that thriftgo accepts but whose output does not compile, while the same program and options
+	// WITHOUT gen_deep_equal compile, is a violation of C18 (DeepEqual does not exist for an accepted program): never skipped
+	var twins []batch.Unit
+	var twinOf []int
+	for i := range b.Units {
+		u := &b.Units[i]
+		if !u.OK() && has(u.Options, "gen_deep_equal") {
+			var o []string
+			for _, x := range u.Options {
+				if x != "gen_deep_equal" {
+					o = append(o, x)
+				}
+			}
+			twins = append(twins, batch.Unit{Prog: units[i].Prog, Recurse: true, Options: o, Tag: u.Tag})
+			twinOf = append(twinOf, i)
+		}
+	}
+	if len(twins) > 0 {
+		work2 := filepath.Join(dir, "work-twin")
+		os.RemoveAll(work2)
+		b2, err2 := batch.Build(work2, repo, twins, nil)
+		for j, i := range twinOf {
+			u := &b.Units[i]
+			if err2 != nil || b2 == nil || !b2.Units[j].OK() {
+				out.Count("unit.unusable.also-without-gen_deep_equal(C01)")
+				continue
+			}
+			msg := firstLine(u.Stderr)
+			if len(u.BuildErrors) > 0 {
+				msg = u.BuildErrors[0]
+			} else if len(u.ParseErrors) > 0 {
+				msg = u.ParseErrors[0]
+			}
+			out.Count("unit.uncompilable-only-with-gen_deep_equal")
+			fmt.Printf("ORACLE FAIL [%s %v] compiles without gen_deep_equal, not with it: %s\n", u.Key, u.Options, msg)
+			out.Fail(vl.OracleFail{Key: "gen-deep-equal-uncompilable:" + normErr(msg),
+				What: "a program that compiles without gen_deep_equal does not compile with it: DeepEqual does not exist for an accepted IDL program",
+				Input: map[string]interface{}{"options": u.Options, "tag": u.Tag, "thriftgo": strings.Join(u.Cmd, " "), "idl": units[i].Prog.Render()},
+				Expected: "thriftgo exit 0 and `go build` of the generated package succeeds", Observed: map[string]interface{}{"exit": u.Exit, "stderr": firstLine(u.Stderr), "go_build": firstN(u.BuildErrors, 6), "parse": firstN(u.ParseErrors, 3)}})
+		}
+		if !keep {
+			os.RemoveAll(work2)
 		}
 	}
 	if bad*2 > len(b.Units) {
@@ -352,6 +403,28 @@ func run(repo, dir string, seed uint64, nprog, nvalues int, keep bool) int {
 		return 1
 	}
 	return 0
+}
+
+// normErr strips the unit path, line and column from a compiler message ("u3/pkg/a.go:10:2: msg" -> "msg") and the
+// identifiers that vary with the program, so that the key names the kind of failure.
+func normErr(m string) string {
+	if i := strings.Index(m, ".go:"); i >= 0 {
+		rest := m[i+4:]
+		parts := strings.SplitN(rest, ": ", 2)
+		if len(parts) == 2 {
+			m = parts[1]
+		}
+	}
+	f := strings.Fields(m)
+	for i, w := range f {
+		if strings.ContainsAny(w, "0123456789_.") {
+			f[i] = "X"
+		}
+	}
+	if len(f) > 8 {
+		f = f[:8]
+	}
+	return strings.Join(f, " ")
 }
 
 func firstN(xs []string, n int) []string {
